@@ -134,6 +134,8 @@ func runC16(p *Prog, r *Report) {
 	handshakeValidation(p, r, "C16.6/handshake-validation")
 	c16PipeErrors(p, r)
 	crashSurface(p, r, "C16.12/crash-surface")
+	limitBeforeStart(p, r, "C16.17/limit-before-start")
+	r.Floor("C16.17/limit-before-start", "transport.handshake_starts", 6)
 }
 
 // recvLimitRules: shared by C01.4 and C16.3.
